@@ -1,0 +1,48 @@
+//go:build verif
+
+// Contracts for package timer, read by /verif/govc (comment-only; compiled by nobody).
+package timer
+
+// ---- the engine's asynchronous queue (C19): one drainer, functions taken in submission order, each exactly once
+// protected:  gAActive a drainer exists   gATaken functions taken in this batch   gABase retired in earlier batches
+//             gASub / gARun submitted / taken so far   gAJobAt submission number -> function
+// thread-local: gDTok the drainer has been created and has not retired   gDI the drainer's own count
+//@ ghost Timer.gAActive : Bool
+//@ ghost Timer.gATaken : Int
+//@ ghost Timer.gABase : Int
+//@ ghost Timer.gASub : Int
+//@ ghost Timer.gARun : Int
+//@ ghost Timer.gAJobAt : (Array Int Int)
+//@ ghost local Timer.gDTok : Bool
+//@ ghost local Timer.gDI : Int
+//@ ghost local Timer.gLenSnap : Int
+//@ pred AsyncInv(t *Timer) := (t.gAActive == (len(t.asyncList) > 0)) && (t.gAActive ==> 0 <= t.gATaken && t.gATaken <= len(t.asyncList) && t.gATaken == t.gDI) && (t.gDTok ==> t.gAActive) && t.gASub == t.gABase + len(t.asyncList) && t.gARun == t.gABase + ite(t.gAActive, t.gATaken, 0) && (forall p int {mem(t.asyncList, p)} :: off(t.asyncList) + t.gATaken <= p && p < off(t.asyncList) + len(t.asyncList) && t.gAActive ==> mem(t.asyncList, p) == t.gAJobAt[t.gABase + p - off(t.asyncList)])
+//@ protected Timer by asyncMux: asyncList, elems(asyncList), gAActive, gATaken, gABase, gASub, gARun, gAJobAt
+//@ moninv async: AsyncInv(self)                                                            // prop C19
+
+//@ func (*Timer).Async
+//@   props C19
+//@   safety index slice nil div assert panic make lock lockset
+//@   requires !holds(t.asyncMux) && !t.gDTok
+//@   assigns everything, Timer.gDTok, Timer.gDI
+//@   at lock#1 ghost { t.gLenSnap = len(t.asyncList) }
+//@   at unlock#1 assert tail: len(t.asyncList) == t.gLenSnap + 1                            // prop C19
+//@   at unlock#1 ghost { t.gAJobAt[t.gASub] = f; t.gASub = t.gASub + 1; t.gAActive = true; t.gATaken = ite(t.gLenSnap == 0, 0, t.gATaken); t.gDI = ite(t.gLenSnap == 0, 0, t.gDI); t.gDTok = (t.gLenSnap == 0) }
+
+// the drainer
+//@ func (*Timer).Async$1
+//@   props C19
+//@   safety index slice nil div assert panic make lock lockset
+//@   requires t != nil && t.gDTok && t.gDI == 0 && !holds(t.asyncMux)
+//@   ensures retired: !t.gDTok && !holds(t.asyncMux)                                         // prop C19
+//@   assigns everything, Timer.gDTok, Timer.gDI
+//@   at unlock#1 ghost { t.gABase = t.gABase + i; t.gAActive = false; t.gDTok = false }
+//@   at unlock#2 assert order: f == t.gAJobAt[t.gABase + i - 1] && t.gABase + i - 1 == t.gARun && i == t.gATaken + 1   // prop C19
+//@   at unlock#2 ghost { t.gATaken = i; t.gDI = i; t.gARun = t.gARun + 1 }
+//@   loop 1
+//@     invariant t.gDTok && i == t.gDI && !holds(t.asyncMux) && i >= 0
+//@ func (*Timer).Async$1$1
+//@   inline
+//@   note runs the function inside a literal whose deferred literal recovers: a panicking function does not stop the drainer
+//@ func (*Timer).Async$1$1$1
+//@   inline
